@@ -311,9 +311,15 @@ def enum_search(check, cases, stats: Stats):
 
 
 # ----------------------------------------------------------------------------- sharding
-def run_sharded(worker, nshards: int = None, timeout_s: float = 3600.0):
+SHARD_ERRORS: list = []
+
+
+def run_sharded(worker, nshards: int = None, timeout_s: float = 3600.0, partial_ok=None):
     """Fork `nshards` children; child i runs worker(i, nshards) -> picklable.
-    Returns list of results (index order). Raises HarnessError on child failure."""
+    Returns list of results (index order). Raises HarnessError on child failure - unless `partial_ok(result)` holds
+    for the result of some shard that did finish (a shard that found a violation: a concrete failing case stands on
+    its own, whatever happened to the other shards); then the results of the finished shards are returned and the
+    errors are left in SHARD_ERRORS."""
     nshards = nshards or NSHARDS
     sys.stdout.flush()
     sys.stderr.flush()
@@ -348,12 +354,17 @@ def run_sharded(worker, nshards: int = None, timeout_s: float = 3600.0):
     while open_fds:
         left = deadline - time.time()
         if left <= 0:
-            for pid, _ in children:
-                try:
-                    os.kill(pid, 9)
-                except OSError:
-                    pass
-            raise HarnessError("watchdog: shard timeout (inconclusive)")
+            # kill what is still running; shards that have delivered a result keep it
+            for pid, r in children:
+                if r in open_fds:
+                    try:
+                        os.kill(pid, 9)
+                    except OSError:
+                        pass
+                    os.close(r)
+                    bufs[r] = pickle.dumps(("err", "watchdog: shard timeout (inconclusive)"))
+            open_fds.clear()
+            break
         rl = wait_readable(list(open_fds), min(left, 5.0))
         for fd in rl:
             chunk = os.read(fd, 1 << 20)
@@ -373,9 +384,10 @@ def run_sharded(worker, nshards: int = None, timeout_s: float = 3600.0):
         else:
             errors.append(val)
             results.append(None)
-    if errors:
+    SHARD_ERRORS[:] = errors
+    if errors and not (partial_ok and any(r is not None and partial_ok(r) for r in results)):
         raise HarnessError("shard failed:\n" + errors[0])
-    return results
+    return [r for r in results if r is not None] if errors else results
 
 
 # ----------------------------------------------------------------------------- replay files
